@@ -349,7 +349,7 @@ def check_roundtrip(ck, lib, c, gm, s, steps):
   nt = md.ncon >= 1 and md.nefc >= 1
   ck.case(nontrivial=nt, key=('B', gm.xml, int(s['qpos'].view(np.uint64).sum() % (1 << 40)), steps),
           sample=dict(oracle='B put_data/get_data', xml=gm.xml, ncon=int(md.ncon), nefc=int(md.nefc), fields_compared=compared,
-                      contact_dims=sorted(set(int(x) for x in md.contact.dim))) if nt else None,
+                      contact_dims=sorted(set(int(x) for x in md.contact.dim))),
           labels=['B:data', 'B:ncon>0' if md.ncon else 'B:ncon=0', 'B:nefc>0' if md.nefc else 'B:nefc=0'])
 
 
@@ -386,7 +386,7 @@ def check_make_data(ck, c, gm):
         str(sa)[:300], str(sb)[:300]), bucket='C-static')
   nt = a._impl.ncon > 0 and a._impl.nefc > 0
   ck.case(nontrivial=nt, key=('C', gm.xml), sample=dict(oracle='C make_data vs put_data(fresh)', xml=gm.xml, leaves=n,
-                                                       ncon_slots=int(a._impl.ncon), nefc_slots=int(a._impl.nefc)) if nt else None,
+                                                       ncon_slots=int(a._impl.ncon), nefc_slots=int(a._impl.nefc)),
           labels=['C:model'])
 
 
@@ -460,7 +460,7 @@ def check_state_api(ck, lib, c, gm, s, s2, rng, nsig):
     nt = len(bits) >= 2 and any(sizes[i] > 0 for i in bits)
     ck.case(nontrivial=nt, key=('D', gm.xml, sig),
             sample=dict(oracle='D state API', sig=sig, components=[STATE_COMPONENTS[i][0] for i in bits],
-                        sizes=[sizes[i] for i in bits]) if nt else None, labels=['D:signature'])
+                        sizes=[sizes[i] for i in bits]), labels=['D:signature'])
   # invalid signatures / sizes
   for bad in (1 << nstate, (1 << nstate) + 3, 1 << 20):
     for fn in ('get', 'set'):
@@ -503,7 +503,7 @@ def shard_main(ck, shard, nshards):
   nB = max(1, -(-ck.budget(12, 360) // nshards))
   batch = 3 if ck.quick else 6
   t_start = time.time()
-  t_budget = float(os.environ.get('C44_TIME', 90 if ck.quick else 1200))
+  t_budget = float(os.environ.get('C44_TIME', 45 if ck.quick else 1200))
   first = [True]
 
   def testA(case):
